@@ -10,7 +10,7 @@ SPEC = dict(
     rule="random trees from VERIF_SEED as in C01 (17 mobilizer types, forward/reversed, 9 frame pairs, quaternion/Euler, 1-12 bodies, "
          "thorough: 1/5 of the cases up to 40), random q, u (zero in 10%), random applied forces, realized through Acceleration; "
          "distinct = distinct exported records",
-    partial=None,
+    partial='the principal clause (each aggregate equals the sum over bodies computed from reported body-frame poses, velocities, accelerations and mass properties) is decided by the implementation-side predicates (long-double recomputation) only: the model DEFINES the aggregates as those sums at Ground-frame level, so the theorems prove consequences (M*v_com = P, system parallel-axis theorem, Koenig per body, composite inertia = subtree sum on the abstract twin, structured SpatialInertia shift/+= = dense); body-frame -> Ground re-expression is not modelled; zero total mass and Instance-stage mass changes (no such state variable in this simbody) are not generated',
     assumptions=[
         "the model takes per-body quantities already expressed in Ground (Mk_G = getBodySpatialInertiaInGround, body origin, "
         "V_GB, A_GB); re-expression of body-frame mass properties (Rotation::reexpressSymMat33) is C29's subject and is exercised "
